@@ -3608,7 +3608,8 @@ fn fnmatch_to_regex(pattern: &str) -> String {
         }
     }
 
-    let mut out = String::from("^");
+    // (?s): `.` must also match a line feed, as `?` and `*` do for fnmatch
+    let mut out = String::from("(?s)^");
     let mut literal = String::new();
     let mut chars = pattern.chars().peekable();
 
